@@ -827,6 +827,7 @@ impl Kind for BigKind {
     type Case = BigCase;
     fn strategy(id: &str, _tier: Tier, _variant: u64) -> BoxedStrategy<BigCase> {
         let unwrap_probe = id == "C12";
+        let sink_from: u8 = if id == "C09" { 5 } else { 8 };
         let nest_pct: u32 = match id {
             "C10" => 70,
             "C03" => 15,
@@ -848,6 +849,7 @@ impl Kind for BigKind {
             "C03" => (0, 2, 1, 0),
             "C05" => (0, 2, 3, 0),
             "C16" => (0, 0, 1, 100),
+            "C09" => (0, 0, 2, 0),
             _ => (0, 1, 1, 0),
         };
         (
@@ -871,7 +873,7 @@ impl Kind for BigKind {
                 order,
                 panic_at: if (cn >> 8) % 100 < panic_pct { Some(cn >> 16) } else { None },
                 nest: if (order >> 3) as u32 % 100 < nest_pct { 2 + (cn % 240) as u16 } else { 0 },
-                sink: dbl == 9 || dbl == 8,
+                sink: dbl >= sink_from,
                 unwrap_probe: unwrap_probe && order & 1 == 1,
                 nodrop: (order >> 8) as u32 % 100 < nodrop_pct,
             })
